@@ -3,6 +3,7 @@
 -/
 import H8.Lemmas.Handlers
 import H8.Model.Exec
+set_option linter.unusedSimpArgs false
 namespace H8.Props
 open H8 H8.Lemmas
 
@@ -77,6 +78,51 @@ macro "mov_reg_handler" il:ident pl:ident : tactic => `(tactic|
    congr 1
    all_goals (
      simp only [nib, rdB, wrB, rdW, wrW, getEr, setEr, shOf, Spec.nzClearV, Spec.setFlag, changeCcrV, Spec.z4, Spec.zx8, Spec.lo3]
+     bv_decide)))
+
+theorem logicFlags_ok {n : Nat} (r : BitVec n) (s : Cpu) :
+    logicFlags r s = .ok () { s with ccr := changeCcrV (changeCcrV (changeCcrV s.ccr 3 r.msb) 2 (r == 0)) 1 false } := by
+  unfold logicFlags
+  simp only [bind_ok, writeCcr_ite, writeCcr_zero]
+
+theorem szL_ne_W : (Sz.L == Sz.W) = false := by decide
+
+-- Proof script for the unary register forms (INC, DEC, NEG, NOT, EXTU) and ADDS / SUBS.
+set_option hygiene false in
+macro "unary_handler" il:ident pl:ident : tactic => `(tactic|
+  (rw [$il:ident] at hi; simp only [Option.some.injEq] at hi; subst hi
+   rw [$pl:ident] at hp; simp only [Bool.and_eq_true, beq_iff_eq] at hp
+   try (have h4 : (nib op 4).ule 7#8 = true := by (simp only [nib]; bv_decide))
+   simp only [unary, atSz1, notProc, negProc, inc, dec, extu, addsSubs, readRn, writeRn, bind_ok, pure_ok, get_ok, readRnB_nib, writeRnB_nib,
+     readRnW_nib, writeRnW_nib, writeCcr_ite, writeCcr_zero, writeCcr_one, changeCcr_ok, beq_self_eq_true, szL_ne_W, ↓reduceIte,
+     Bool.false_eq_true] at h
+   try (simp only [readRnL_ok _ _ h4, writeRnL_ok _ _ _ h4, bind_ok, pure_ok, get_ok, writeCcr_ite, writeCcr_zero, writeCcr_one,
+     changeCcr_ok, beq_self_eq_true, szL_ne_W, ↓reduceIte, Bool.false_eq_true] at h)
+   have := costI_state h; subst this
+   simp only [specRegCcr, Spec.exec, Spec.alu1At, Spec.alu1K, Spec.getReg, Spec.setReg, getR8_eq, setR8_eq, getR16_eq, setR16_eq,
+     getER_eq, setER_eq]
+   generalize st.regs = r; generalize st.ccr = cc
+   congr 1
+   all_goals (
+     simp only [nib, rdB, wrB, rdW, wrW, getEr, setEr, shOf, Spec.subFlags, Spec.nzClearV, Spec.setFlag, Spec.flag, Spec.borrowAt,
+       changeCcrV, Spec.z4, Spec.lo3]
+     bv_decide)))
+
+-- Proof script for AND / OR / XOR register and byte-immediate forms.
+set_option hygiene false in
+macro "logic_handler" il:ident pl:ident : tactic => `(tactic|
+  (rw [$il:ident] at hi; simp only [Option.some.injEq] at hi; subst hi
+   rw [$pl:ident] at hp; simp only [Bool.and_eq_true, beq_iff_eq] at hp
+   simp only [logicRn, logicBImm, logicFlagsSz, logicFlags_ok, LOp.ap, readRn, writeRn, bind_ok, pure_ok, get_ok, readRnB_nib, writeRnB_nib,
+     readRnW_nib, writeRnW_nib, writeCcr_ite, writeCcr_zero, writeCcr_one, changeCcr_ok] at h
+   have := costI_state h; subst this
+   simp only [specRegCcr, Spec.exec, Spec.alu2At, Spec.alu2K, Spec.getReg, Spec.setReg, getR8_eq, setR8_eq, getR16_eq, setR16_eq,
+     getER_eq, setER_eq, Option.map]
+   generalize st.regs = r; generalize st.ccr = cc
+   congr 1
+   all_goals (
+     simp only [nib, rdB, wrB, rdW, wrW, getEr, setEr, shOf, Spec.nzClearV, Spec.setFlag, Spec.flag,
+       changeCcrV, Spec.z4, Spec.lo3, Spec.zx8, Spec.zx16]
      bv_decide)))
 
 end H8.Props
